@@ -131,11 +131,29 @@ def to_collection(et, coll, onto_variant=False):
     return EventCollection(M.make_events(et, coll, 'EDXMLEvent'), ontology=onto) if coll else EventCollection([], ontology=onto)
 
 
+def touch(coll, which):
+    """reading something that is not there must not make a difference: look up a missing attachment / property on the events"""
+    for k, e in enumerate(coll):
+        if k % 2 == which:
+            try:
+                e.attachments['no-such-attachment']
+            except Exception:
+                pass
+            try:
+                e.properties['no-such-property']
+            except Exception:
+                pass
+
+
 def run_impl(et, a, b, onto_changed):
     from edxml.error import EDXMLMergeConflictError
     res = []
     for x, y, cx, cy in ((a, b, False, onto_changed), (b, a, onto_changed, False)):
         ca, cb = to_collection(et, x, cx), to_collection(et, y, cy)
+        if (len(a) + len(b)) % 3 == 0:
+            touch(cb, len(a) % 2)
+        elif (len(a) + len(b)) % 3 == 1:
+            touch(ca, len(b) % 2)
         try:
             r = 1 if ca.is_equivalent_of(cb) else 0
         except AttributeError:
@@ -228,6 +246,44 @@ def main(argv):
             ck.oracle_failures.append({'signature': sig, 'input': inp, 'observed': detail})
         if all(r in (0, 1, 2, 3) for r in res):
             terms.append(coq((M.et_term(et), M.rank_tables(et), not oc, items_term(et, a), items_term(et, b), res[0], res[1])))
+            metas.append(inp)
+    # event types WITH a version property (replace strategy, genuine merge conflicts possible): the verdict - equivalent, different or a
+    # merge conflict - must not depend on the order of the events; the expected verdict itself comes from the model (correspondence)
+    for i in range(ck.budget(200, 4000)):
+        et = M.gen_etype(rng, force_version=True, strategies=['match', 'match', 'add', 'min', 'max', 'replace', 'replace'], exclude_types=EXCL)
+        if not any(p['merge'] == 'match' for p in et['props']):
+            et['props'][0].update(merge='match', data_type='string:0:mc:u', optional=False, multivalued=False)
+        a, seen_k = [], set()
+        for gi in range(rng.choice([1, 1, 2])):
+            g = M.gen_group(rng, et, size=rng.choice([2, 3, 3, 4]), allow_conflict=rng.random() < 0.6)
+            if not g or hkey(et, g[0]) in seen_k:
+                continue
+            seen_k.add(hkey(et, g[0]))
+            for e in g:
+                e['tag'] = gi + 1
+            a += g
+        if not a:
+            continue
+        b = copy.deepcopy(a)
+        rng.shuffle(b)
+        a2 = copy.deepcopy(a)
+        rng.shuffle(a2)
+        if rng.random() < 0.3 and len(b) > 1:
+            b.pop()
+        res1, res2 = run_impl(et, a, b, False), run_impl(et, a2, b, False)
+        ck.cov['evaluations'] += 2
+        ck.dist('versioned:%s' % (res1[0],))
+        inp = {'etype': et, 'a': a, 'b': b, 'a_reordered': a2, 'ontology_changed': False, 'kind': 'versioned'}
+        bad = [r for r in res1 + res2 if r not in (0, 1, 3)]
+        if bad:
+            ck.oracle_failures.append({'signature': 'raises/%s/versioned' % str(bad[0]).split(':')[1 if ':' in str(bad[0]) else 0], 'input': inp, 'observed': repr((res1, res2))})
+        elif res1 != res2:
+            ck.oracle_failures.append({'signature': 'order-dependent-verdict/versioned', 'input': inp,
+                                       'observed': 'a~b, b~a = %r; with the events of a reordered: %r (0 different, 1 equivalent, 3 merge conflict)' % (res1, res2)})
+        elif res1[0] != res1[1]:
+            ck.oracle_failures.append({'signature': 'asymmetric/versioned', 'input': inp, 'observed': 'a~b=%s b~a=%s' % tuple(res1)})
+        else:
+            terms.append(coq((M.et_term(et), M.rank_tables(et), True, items_term(et, a), items_term(et, b), res1[0], res1[1])))
             metas.append(inp)
     # histories: compare, edit an event of one collection in place (a hashed object changes), compare again
     for i in range(ck.budget(150, 3000)):
